@@ -33,3 +33,4 @@ from . import gen_shapes; GENERATORS["GenShapes"] = gen_shapes.generate
 from . import gen_forest; GENERATORS["GenForest"] = gen_forest.generate
 from . import gen_pathflow; GENERATORS["GenPathFlow"] = gen_pathflow.generate
 from . import gen_mesh; GENERATORS["GenMesh"] = gen_mesh.generate
+from . import gen_level1; GENERATORS["GenLevel1"] = gen_level1.generate
